@@ -160,6 +160,10 @@ pub enum Op {
     /// dom || (len mod 256) || ctx || [OID || PH(M)] || [M] for a context of `ctx_len` > 255 bytes
     /// (a "signature made over the wrapped length byte"); it is delivered at once with that context
     SignWrapped { sk: usize, msg: Vec<u8>, ctx_len: usize, mode: Mode, rnd: [u8; 32] },
+    /// a context of 2^32 + `extra` bytes (all zero, never touched unless the library reads it) is handed
+    /// to the signer, to the internal signer and, with the tuple signed last, to every verifier replica:
+    /// the width at which a length held in 32 bits wraps, as 256 and 65536 are for 8 and 16 bits
+    HugeCtx { sk: usize, msg: Vec<u8>, extra: u8, mode: Mode, rnd: [u8; 32] },
 }
 
 impl Op {
@@ -180,6 +184,7 @@ impl Op {
             Op::DeliverCross { .. } => "deliver_cross_protocol",
             Op::DeliverLongCtx { .. } => "deliver_overlong_context",
             Op::SignWrapped { .. } => "sign_over_wrapped_length_byte",
+            Op::HugeCtx { .. } => "context_of_4gib",
         }
     }
     fn to_json(&self) -> Value {
@@ -200,6 +205,7 @@ impl Op {
             Op::DeliverCross { t, shift, full } => json!({"op":"deliver_cross_protocol","tuple":t,"shift":shift,"full":full}),
             Op::DeliverLongCtx { t, kind } => json!({"op":"deliver_overlong_context","tuple":t,"kind":kind}),
             Op::SignWrapped { sk, msg, ctx_len, mode, rnd } => json!({"op":"sign_over_wrapped_length_byte","sk":sk,"msg":hx(msg),"ctx_len":ctx_len,"mode":mode.name(),"rnd":hx(rnd)}),
+            Op::HugeCtx { sk, msg, extra, mode, rnd } => json!({"op":"context_of_4gib","sk":sk,"msg":hx(msg),"extra":extra,"mode":mode.name(),"rnd":hx(rnd)}),
         }
     }
     fn from_json(v: &Value) -> Option<Op> {
@@ -221,6 +227,7 @@ impl Op {
             "deliver_cross_protocol" => Op::DeliverCross { t: u("tuple")?, shift: v["shift"].as_u64().unwrap_or(0) as u8, full: v["full"].as_bool().unwrap_or(false) },
             "deliver_overlong_context" => Op::DeliverLongCtx { t: u("tuple")?, kind: v["kind"].as_u64()? as u8 },
             "sign_over_wrapped_length_byte" => Op::SignWrapped { sk: u("sk")?, msg: unhx(&v["msg"]), ctx_len: u("ctx_len")?, mode: Mode::from_name(v["mode"].as_str()?)?, rnd: unhx32(&v["rnd"]) },
+            "context_of_4gib" => Op::HugeCtx { sk: u("sk")?, msg: unhx(&v["msg"]), extra: v["extra"].as_u64().unwrap_or(0) as u8, mode: Mode::from_name(v["mode"].as_str()?)?, rnd: unhx32(&v["rnd"]) },
             _ => return None,
         })
     }
@@ -585,6 +592,36 @@ pub fn execute(set: &dyn DynSet, xi: &[u8; 32], xi_other: &[u8; 32], ops: &[Op],
                     }
                 }
             }
+            Op::HugeCtx { sk, msg, extra, mode, rnd } => {
+                if cfg!(miri) || usize::BITS < 64 {
+                    continue;
+                }
+                let s = &sks[sk % sks.len()];
+                let cl = (1usize << 32) + *extra as usize;
+                // zero pages straight from the allocator: costs no memory and no time unless the library reads them
+                let ctx = vec![0u8; cl];
+                bump(&mut st.faults_fired, "channel/context_of_4gib");
+                // a library that lets this through hashes 4 GiB per call: report the first acceptance and move on
+                if let Some(Ok(_)) = guard!(i, "sign", s.obj.sign_rng(&mut SimRng::healthy(rnd.to_vec()), msg, &ctx, *mode)) {
+                    finds.push(Finding { prop: "C07", invariant: "signer-accepts-overlong-context".into(), at_op: i, observed: format!("signing ({}) with a context of 2^32+{extra} bytes returned a signature", mode.name()), expected: "Err".into() });
+                    continue;
+                }
+                if let Some(Ok(_)) = guard!(i, "_internal_sign", s.obj.sign_internal_ctx(msg, &ctx, *rnd)) {
+                    finds.push(Finding { prop: "C07", invariant: "signer-accepts-overlong-context".into(), at_op: i, observed: format!("_internal_sign with a context of 2^32+{extra} bytes returned a signature"), expected: "Err".into() });
+                    continue;
+                }
+                let Some(tu) = tuples.last() else { continue };
+                for p in pks.iter() {
+                    st.verifies += 1;
+                    let Some(dec) = guard!(i, "verify", p.obj.verify(&tu.msg, &tu.sig, &ctx, tu.mode)) else { continue };
+                    let deci = guard!(i, "_internal_verify", p.obj.verify_internal(&tu.msg, &tu.sig, &ctx)).unwrap_or(false);
+                    st.sigs.insert(format!("{}|context_of_4gib|{}|{}", info.name, tu.mode.name(), dec || deci));
+                    if dec || deci {
+                        finds.push(Finding { prop: "C07", invariant: "verifier-accepts-overlong-context".into(), at_op: i, observed: format!("verification ({}) with a context of 2^32+{extra} bytes returned true (replica `{}`)", tu.mode.name(), p.prov), expected: "verification returns false".into() });
+                        break;
+                    }
+                }
+            }
             Op::DeliverAs { .. } | Op::DeliverReframed { .. } | Op::DeliverCross { .. } | Op::DeliverLongCtx { .. } => {
                 if tuples.is_empty() {
                     continue;
@@ -613,8 +650,15 @@ pub fn execute(set: &dyn DynSet, xi: &[u8; 32], xi_other: &[u8; 32], ops: &[Op],
                         // split codes >= 10000 ask for the aliasing boundary |ctx| + 256*(code-9999)
                         // ... and code 20000 for |ctx| + 65536 (16-bit aliasing; needs a message over 64 KiB)
                         // (for a tuple whose context is already over-long the aliasing boundary lies below: |ctx| - 256*j)
-                        let step = if *split >= 20_000 { 65_536 } else if *split >= 10_000 { 256 * (split - 9_999) } else { 0 };
-                        let k = if step > 0 {
+                        // split codes 30000..30016 move the tuple's own boundary by code-30008 bytes (-8..+8): the
+                        // neighbouring splits, where a length byte clamped or off by one aliases
+                        let step = if *split >= 30_000 { 0 } else if *split >= 20_000 { 65_536 } else if *split >= 10_000 { 256 * (split - 9_999) } else { 0 };
+                        let k = if *split >= 30_000 {
+                            match (tu.ctx.len() + (split - 30_000).min(16)).checked_sub(8) {
+                                Some(k) => k,
+                                None => continue,
+                            }
+                        } else if step > 0 {
                             if tu.ctx.len() + step <= cat.len() && tu.ctx.len() <= 255 { tu.ctx.len() + step } else if tu.ctx.len() >= step { tu.ctx.len() - step } else { continue }
                         } else {
                             split % (cat.len().min(600) + 1)
@@ -825,7 +869,7 @@ pub fn gen_history(p: &mut Prng, set: &dyn DynSet) -> Vec<Op> {
                 Op::DeliverReframed { t: 999_999, split: if cl >= 65_536 { 20_000 } else { 10_000 + (cl / 256).saturating_sub(1).min(1) } }
             }
             0 => Op::DeliverAs { t: p.usize_below(8), mode: *p.pick(&MODES) },
-            1 => Op::DeliverReframed { t: p.usize_below(8), split: match p.below(5) { 0 => *p.pick(&[256usize, 257, 300, 512]), 1 => p.usize_below(4), 2 => *p.pick(&[10_000usize, 10_001, 20_000]), _ => p.usize_below(256) } },
+            1 => Op::DeliverReframed { t: p.usize_below(8), split: match p.below(6) { 0 => *p.pick(&[256usize, 257, 300, 512]), 1 => p.usize_below(4), 2 => *p.pick(&[10_000usize, 10_001, 20_000]), 3 => *p.pick(&[30_007usize, 30_009, 30_007, 30_009, 30_006, 30_010, 30_000, 30_016]), _ => p.usize_below(256) } },
             2 => Op::DeliverCross { t: p.usize_below(8), shift: *p.pick(&[0u8, 0, 1, 2, 11]), full: p.chance(1, 4) },
             _ => continue,
         };
@@ -834,6 +878,11 @@ pub fn gen_history(p: &mut Prng, set: &dyn DynSet) -> Vec<Op> {
     // close the history with deliveries to whatever replicas exist at the end
     ops.push(Op::Deliver { t: p.usize_below(8), fault: None });
     ops.push(Op::Deliver { t: p.usize_below(8), fault: None });
+    // the 32-bit wrap of the context length (drawn last: histories keep their earlier operations)
+    if p.chance(1, 40) {
+        let ml = *p.pick(&MSG_LENS[..8]);
+        ops.push(Op::HugeCtx { sk: p.usize_below(8), msg: p.bytes(ml), extra: *p.pick(&[0u8, 0, 1, 3, 32, 255]), mode: *p.pick(&MODES), rnd: p.array32() });
+    }
     ops
 }
 
@@ -1162,9 +1211,18 @@ fn minimise(prop: &'static str, v: Violation) -> Violation {
     // 1. truncate after the violating operation; 2. drop operations one at a time (references are
     // taken modulo the pool size, so every sub-history is well-formed); 3. simplify what is left
     if let Some(at) = body["at_op"].as_u64() {
+        // 0. the violating operation alone (one replay instead of one per operation: a library that accepts
+        // a 4 GiB context hashes it on every replay)
+        let mut b0 = body.clone();
+        let only = body["ops"].get(at as usize).cloned();
+        if let Some(only) = only {
+            b0["ops"] = json!([only]);
+        }
         let mut b2 = body.clone();
         b2["ops"].as_array_mut().unwrap().truncate(at as usize + 1);
-        if still(&b2) {
+        if still(&b0) {
+            body = b0;
+        } else if still(&b2) {
             body = b2;
         }
     }
